@@ -21,7 +21,10 @@ for d in sorted(glob.glob(os.path.join(R, 'seeded', 'C*'))):
     srows.append(f"| {m['property_broken']} | {m['change']} | {m['needs_to_manifest']} | {m['result']} | {m.get('strengthening','–')} | {m.get('result_after_strengthening','(unchanged) caught')} |")
 seeds = "\n".join(srows)
 tail = rd('05_tail.md').replace('@@TABLE@@', table).replace('@@FIXES@@', fixes).replace('@@FIXED@@', fixed).replace('@@KNOWN@@', known).replace('@@SEEDS@@', seeds)
-out = rd('00_head.md') + rd('01_sut.md').split('\n',1)[1] if rd('01_sut.md').startswith('## 1.') else rd('00_head.md') + rd('01_sut.md')
+nfix = len([l for l in log if l.split(' ',1)[1].startswith('fix:')])
+nfixed = len([f for f in k if f['status'] == 'fixed'])
+head = rd('00_head.md').replace('@@NFIX@@', str(nfix)).replace('@@NFIXED@@', str(nfixed))
+out = head + (rd('01_sut.md').split('\n',1)[1] if rd('01_sut.md').startswith('## 1.') else rd('01_sut.md'))
 out += rd('02_engines.md') + rd('04_properties.md') + tail + rd('99_appendix.md')
 open(os.path.join(R, 'DESIGN.md'), 'w').write(out)
 print("DESIGN.md", len(out.split('\n')), "lines")
